@@ -8,7 +8,7 @@ MANIFEST = dict(
    note="Trusted: Lean kernel; axioms propext/Classical.choice/Quot.sound only; Go's rune decoding of the tag (the model starts from []rune(tag)); unicode.IsSpace table as transcribed; the harness, the generators in vlib/c06.py and the comparer. The rule matrix is finite: the listed field types, one parameter per rule, pairs of rules, boundary probes only. Format rules (email/url/uuid/regex) are judged on blatant members/non-members. Type graphs: finite acyclic VALUES only (no cyclic pointer structures); probes are single corruptions of one valid value per root, recursion unfolded twice (thorough: three times); the graph world has one scalar field `V int min=3` per struct and edge tags `required` / `max=2` / none. Histories: string fields, rules enum/includes/startswith/endswith/min/max/length/required. The documented meaning is this check's reading of docs/tags.md (required = presence; an untagged field is not validated; a nil slice/map is the absent container).",
    design="DESIGN.md §5 C06")
 
-MODULES = ["Gozod.Proofs.C06", "Gozod.Proofs.C06G", "Gozod.Proofs.C06H", "Gozod.Proofs.C06S"]
+MODULES = ["Gozod.Proofs.C06", "Gozod.Proofs.C06G", "Gozod.Proofs.C06H", "Gozod.Proofs.C06S", "Gozod.Proofs.C06M", "Gozod.Proofs.C06T"]
 THEOREMS = [
     "Gozod.C06.c06_no_panic", "Gozod.C06.c06_legacy_panics", "Gozod.C06.c06_parse_ws", "Gozod.C06.c06_rule_ws",
     "Gozod.C06.c06_parts_ws", "Gozod.C06.accept_pair", "Gozod.C06.accept_comm",
@@ -26,6 +26,11 @@ THEOREMS = [
     # the static table of type switches (Proofs/C06S.lean over Gen/TagSwitches.lean)
     "Gozod.C06.c06_switches_reach_partial", "Gozod.C06.c06_switches_reach", "Gozod.C06.c06_switches_cover", "Gozod.C06.c06_unreached_is_dropped",
     "Gozod.C06.c06_tableX_shape",
+    # the meaning of a tag for every value and field kind (Proofs/C06M.lean), and the table reduced to the tie (Proofs/C06T.lean)
+    "Gozod.C06.c06_tag_meaning", "Gozod.C06.c06_code_perm", "Gozod.C06.c06_spec_perm", "Gozod.C06.c06_meaning_ws",
+    "Gozod.C06.c06_tag_meaning_all_false",
+    "Gozod.C06.c06_table_is_model", "Gozod.C06.c06_table_side", "Gozod.C06.c06_table_documented", "Gozod.C06.c06_specs_agree",
+    "Gozod.C06.c06_matrix_tags_parse",
 ]
 # witnesses that the known-finding region is exact; they stop checking when the library is repaired
 W_MODULES = ["Gozod.Proofs.C06W"]
@@ -284,7 +289,11 @@ def graph_roots():
     add("rec_mutual_ptr", {"R": ("min=3", [("B", "ptr", "B", "required")]), "B": ("min=3", [("A", "ptr", "R", "required"), ("Ks", "slice", "B", "max=2")])})
     add("rec_below_root", {"R": ("min=3", [("X", "val", "T", "required"), ("Y", "val", "T", "required")]),
                            "T": ("min=3", [("Kids", "slice", "T", "max=2")])})
-    # recursion through a map value / a map of pointers: FromStruct itself does not return
+    # one self-referential type referred to by several fields with DIFFERENT tags (one object schema per type since a41c851)
+    add("rec_refs_mixed", {"R": ("min=3", [("A", "ptr", "R", "required"), ("B", "sliceptr", "R", "max=2"), ("C", "slice", "R", "required"), ("D", "ptr", "R", None)])})
+    add("rec_shared_below", {"R": ("min=3", [("X", "val", "T", "required"), ("Y", "ptr", "T", "required"), ("Z", "slice", "T", "max=2")]),
+                             "T": ("min=3", [("Kids", "sliceptr", "T", "max=2"), ("Next", "ptr", "T", "required"), ("More", "slice", "T", "required")])})
+    # recursion through a map value / a map of pointers (FromStruct did not return before d766956)
     add("rec_map", {"R": ("min=3", [("M", "map", "R", "required")])}, True)
     add("rec_mapptr", {"R": ("min=3", [("M", "mapptr", "R", "required")])}, True)
     add("rec_map_below", {"R": ("min=3", [("X", "val", "T", "required")]), "T": ("min=3", [("M", "map", "T", "required")])}, True)
@@ -737,6 +746,10 @@ def make_key(ops, impl, model):
         if t[1] == "graph":
             # accepted/rejected by the implementation; which corruption; under which kind of edge (fwd / back / untagged)
             return "graph:%s:%s" % ({"1": "accepted", "0": "rejected"}.get(im, re.split(r"[:_]", im)[0]), t[3])
+        if t[1] == "graphagain":
+            # same classes as the first pass; a verdict that differs from the first pass is its own class
+            if im.startswith("changed"): return "graph-history:changed:%s" % t[3]
+            return "graph:%s:%s" % ({"1": "accepted", "0": "rejected"}.get(im, re.split(r"[:_]", im)[0]), t[3])
         if t[1] == "gbuild":
             return "gbuild:%s:%s" % (im, t[2])
         if t[1] == "hist":
@@ -759,7 +772,7 @@ def describe(op):
         return "fresh process; FromStruct of the struct types of family %s (harness/cmd/c06/zz_twins.go) in the order %s; then the Parse in the op comment on struct #%s of that order" % (t[2], t[3], t[4])
     if t[1] == "stype":
         return "the concrete schema type of a field of this Go type, by reflection on FromStruct's Shape (expression in the op comment) vs. the go/ast derivation in Gen/TagSwitches.lean"
-    if t[1] in ("graph", "gbuild", "genv"):
+    if t[1] in ("graph", "graphagain", "gbuild", "genv"):
         return "the Go expression in the op comment (struct types: harness/cmd/c06/zz_graph.go, root %s); value tokens: nil | node <V> <n> kid*n | list <n> elem*n" % t[2]
     return "tagparser.New().ParseTagString(<tag in the op comment>)"
 
